@@ -12,7 +12,7 @@ use kinded::{Kind, Kinded};
 use proc_macro2::{Ident, Span};
 use syn::{
     parenthesized,
-    parse::{Parse, ParseStream},
+    parse::{discouraged::Speculative, Parse, ParseStream},
     spanned::Spanned,
     token::Paren,
     Expr, Lit, Token,
@@ -357,13 +357,20 @@ pub fn parse_number_or_expr<T>(input: ParseStream) -> syn::Result<(ValueOrExpr<T
 where
     T: FromStr,
 {
-    if let Ok((number, span)) = parse_number::<T>(input) {
-        Ok((ValueOrExpr::Value(number), span))
-    } else {
-        let expr: Expr = input.parse()?;
-        let span = expr.span();
-        Ok((ValueOrExpr::Expr(expr), span))
+    // Try the literal on a fork, so that a failed attempt does not consume anything
+    // (e.g. the leading `-` of `-MAX_LEVEL`).
+    let fork = input.fork();
+    if let Ok((number, span)) = parse_number::<T>(&fork) {
+        // It is a plain literal only if the value ends here. Otherwise (e.g. `1 << 3`)
+        // the literal is just the beginning of an expression.
+        if fork.is_empty() || fork.peek(Token![,]) {
+            input.advance_to(&fork);
+            return Ok((ValueOrExpr::Value(number), span));
+        }
     }
+    let expr: Expr = input.parse()?;
+    let span = expr.span();
+    Ok((ValueOrExpr::Expr(expr), span))
 }
 
 // NOTE: This is a quite hacky way to obtain a syn::Type from `T`.
